@@ -22,13 +22,37 @@ One shared Events class (a new Events class per history would make every listen(
 a fresh class hierarchy and fresh functions per history; after each history everything it left in the shared dispatcher and in the
 registry is purged by target identity (id() reuse of collected classes / functions would otherwise hit stale registry keys), and the
 objects of a batch are kept alive until the batch ends.
+
+OVERLAPPING DISPATCH (second coverage block; functions ``ov_*`` / ``overlapping``).  The histories above dispatch one event after the
+other.  "Once-only and first-connect listeners run at most once even when dispatched concurrently" and "each once" also speak about
+dispatches that OVERLAP.  Scope: one instance a1 of a fresh class A; every list of <= 2 (thorough: 3) listeners, each registered on
+{A, a1} as {plain, once=True, _once_unless_exception=True (the registration the engine uses for first-connect listeners)}; two
+dispatches on a1 by every pair of methods {plain call, exec_once, exec_once_unless_exception, _exec_w_sync_on_first_run} (the latter
+three through ``for_modify`` as the pool / engine call them);
+  nested      one thread; each listener is {plain | dispatches the event again from inside its first invocation | raises in its first
+              invocation}; the two dispatches follow each other, the overlap comes from the re-dispatching listeners
+  concurrent  two REAL threads under a forced schedule: exactly one listener parks inside its first invocation (threading.Event), the
+              second thread then dispatches and either runs to its end or is observed waiting for the collection's exec-once mutex
+              (``threading.Lock`` as seen by event/attr.py is wrapped for the duration of the scenario so that a thread that has to wait
+              reports it — no sleeping; all waits bounded, daemon threads, joins with time-out), then the first is released; a later
+              plain dispatch by the main thread closes the scenario
+Contract (``OvModel``): a dispatch that runs the listeners invokes, in order (class-level, then instance-level, registration order),
+every registered listener exactly once, EXCEPT a once / once-unless-exception listener of which an invocation has already STARTED
+(finished or still in progress, in this or another thread) — that one is not invoked; a once-unless-exception listener whose invocation
+ended with an exception may be invoked again.  exec_once / exec_once_unless_exception run the listeners only if the collection was not
+executed before (an execution that raised counts for exec_once, not for exec_once_unless_exception); two dispatches that both go through
+the collection's mutex do not overlap (the second starts after the first ended); _exec_w_sync_on_first_run and a plain call always run
+the listeners.  The verdict is the equality of the recorded (thread, listener) invocation sequence and of each dispatch's outcome
+(returned / raised) with the ghost's.  Outside: re-entrant exec_once (the non-re-entrant mutex blocks by design), asyncio locks.
 """
 import gc
 import json
 import multiprocessing
 import random
+import threading
 import time
 import warnings
+import zlib
 
 LABEL = "bounded (not proof)"
 
@@ -381,7 +405,8 @@ def bounded(run, tier, seed):
         seen.add(cls)
         run.violation("C28b-%s-%08d" % (f["function"].replace(".", "_"), abs(hash(dj)) % 10 ** 8),
                       dict(function=f["function"], input=f["input"], expected=f["input"].get("expected"), actual=f["input"].get("got"),
-                           reason="listener invocation sequence / listen / remove outcome differs from the registry model", replay_module="checks.C28_bounded"))
+                           reason="listener invocation sequence / listen / remove outcome differs from the registry model", replay_module="checks.C28_bounded",
+                           bounded_module="checks.C28_bounded"))
     keep = []
     samples = []
     for ops_ in ([["listen", "A", "f", []], ["defC"], ["listen", "B", "g", ["insert"]], ["listen", "c1", "f", ["once"]]],
@@ -400,11 +425,425 @@ def bounded(run, tier, seed):
              "invoked two or more listeners",
         samples=samples, exhaustive=True, label=LABEL, contract_failures=nfail, known_finding_cases=known_hits, wall_s=round(time.time() - t0, 1))
     run.coverage.setdefault("bounded", []).append(blk)
+    overlapping(run, tier)
     return blk
+
+
+# ================================================================================================ overlapping dispatch
+# Second part (see the module docstring, "OVERLAPPING DISPATCH"): dispatches that overlap — re-entrantly (a listener dispatches the
+# same event again) or from two threads under a forced schedule — over listener kinds {plain, once=True, _once_unless_exception=True
+# (how first-connect listeners are registered)} and dispatch methods {plain call, exec_once, exec_once_unless_exception,
+# _exec_w_sync_on_first_run}.
+OV_TARGETS = ["A", "a1"]
+OV_FLAGS = ["plain", "once", "once_ue"]
+OV_METHODS = ["call", "exec_once", "exec_once_ue", "sync_first"]
+OV_BOUND = 10.0         # every wait of the harness is bounded
+OV_FUNCTION = "dispatch (overlapping: re-entrant / two threads)"
+
+
+class _ModelRaise(Exception):
+    pass
+
+
+class OvError(Exception):
+    """raised by a 'raise' listener"""
+
+
+class _HarnessTimeout(Exception):
+    pass
+
+
+class OvModel:
+    """ghost: which listener invocations a dispatch makes.  A once / once-unless-exception listener is CLAIMED from the moment an
+    invocation of it starts (at most one invocation ever starts; once-unless-exception: it is released again when that invocation
+    ends with an exception).  exec_once / exec_once_unless_exception run the listeners only if the collection has not been executed
+    (exec_once: an execution that raised counts, exec_once_unless_exception: it does not); _exec_w_sync_on_first_run and a plain call
+    always run them.  Order: class-level registrations, then instance-level ones, each in registration order."""
+
+    def __init__(self, regs):
+        self.regs = [dict(fn=f, target=t, flag=fl, beh=b, claimed=False, n=0) for f, t, fl, b in regs]
+        self.order = [r for r in self.regs if r["target"] == "A"] + [r for r in self.regs if r["target"] == "a1"]
+        self.executed = False
+        self.log = []
+        self.overlap_skips = 0      # a once-type listener skipped by a dispatch that runs while another dispatch is in progress
+        self.active = 0             # dispatches in progress (nested or parked)
+
+    def run_listeners(self, who):
+        self.active += 1
+        try:
+            for r in self.order:
+                if r["flag"] != "plain":
+                    if r["claimed"]:
+                        if self.active >= 2:
+                            self.overlap_skips += 1
+                        continue
+                    r["claimed"] = True
+                r["n"] += 1
+                first = r["n"] == 1
+                self.log.append([who, r["fn"]])
+                try:
+                    if first and r["beh"] == "nest":
+                        yield from self.run_listeners(who)
+                    elif first and r["beh"] == "raise":
+                        raise _ModelRaise()
+                    elif first and r["beh"] == "block":
+                        yield "park"
+                except _ModelRaise:
+                    if r["flag"] == "once_ue":
+                        r["claimed"] = False
+                    raise
+        finally:
+            self.active -= 1
+
+    def dispatch(self, m, who):
+        if m in ("exec_once", "exec_once_ue"):
+            if self.executed:
+                return
+            try:
+                yield from self.run_listeners(who)
+            except _ModelRaise:
+                if m == "exec_once":
+                    self.executed = True
+                raise
+            self.executed = True
+        else:
+            yield from self.run_listeners(who)
+
+    def drive(self, gen):
+        """run a dispatch to its end or to its park point -> 'done' | 'raised' | 'parked'"""
+        try:
+            for _ in gen:
+                return "parked"
+        except _ModelRaise:
+            return "raised"
+        return "done"
+
+
+def ov_expected(kind, regs, methods):
+    m = OvModel(regs)
+    outcomes = []
+    if kind == "nested":
+        for meth in methods:
+            outcomes.append(m.drive(m.dispatch(meth, "main")))
+    else:
+        g1 = m.dispatch(methods[0], "t1")
+        st = m.drive(g1)
+        assert st == "parked", st
+        deferred = methods[0] != "call" and methods[1] != "call"      # both go through the collection's mutex
+        if not deferred:
+            outcomes.append(["t2", m.drive(m.dispatch(methods[1], "t2"))])
+        outcomes.append(["t1", m.drive(g1)])
+        if deferred:
+            outcomes.append(["t2", m.drive(m.dispatch(methods[1], "t2"))])
+        outcomes.append(["main", m.drive(m.dispatch("call", "main"))])
+    return dict(log=m.log, outcomes=outcomes), m.overlap_skips
+
+
+class _TracedLock:
+    """what event/attr.py gets from ``threading.Lock()`` while a two-thread scenario runs: a real lock that reports a thread that
+    has to wait for it (so the schedule can go on without sleeping) and never waits unboundedly"""
+
+    def __init__(self, sync, state):
+        self._l = threading.Lock()
+        self._sync, self._state = sync, state
+
+    def __enter__(self):
+        if self._l.acquire(blocking=False):
+            return self
+        with self._sync:
+            self._state[threading.current_thread().name] = "blocked-on-mutex"
+            self._sync.notify_all()
+        if not self._l.acquire(timeout=OV_BOUND):
+            raise _HarnessTimeout("exec-once mutex not released within the bound")
+        return self
+
+    def __exit__(self, *a):
+        self._l.release()
+
+
+class _ThreadingShim:
+    def __init__(self, lock_factory):
+        self.Lock = lock_factory
+
+    def __getattr__(self, name):
+        return getattr(threading, name)
+
+
+class OvReal:
+    def __init__(self, regs, keep):
+        from sqlalchemy import event
+        TE = events_class()
+
+        class A:
+            dispatch = event.dispatcher(TE)
+        self.env = {"A": A, "a1": A()}
+        self.temps = []
+        self.log = []
+        self.inside = threading.Event()
+        self.release = threading.Event()
+        keep.append(self)
+        for f, t, fl, b in regs:
+            kw = {"once": {"once": True}, "once_ue": {"_once_unless_exception": True}, "plain": {}}[fl]
+            event.listen(self.env[t], "ev", self._listener(f, b), **kw)
+
+    def _listener(self, name, beh):
+        st = {"n": 0}
+        log, a1, inside, release = self.log, self.env["a1"], self.inside, self.release
+
+        def listener(x):
+            st["n"] += 1
+            first = st["n"] == 1
+            log.append([threading.current_thread().name if threading.current_thread() is not threading.main_thread() else "main", name])
+            if first and beh == "nest":
+                a1.dispatch.ev(7)
+            elif first and beh == "raise":
+                raise OvError(name)
+            elif first and beh == "block":
+                inside.set()
+                if not release.wait(OV_BOUND):
+                    log.append(["harness", "release-timeout"])
+        listener.__name__ = name
+        return listener
+
+    def dispatch(self, m):
+        """-> 'done' | 'raised'"""
+        a1 = self.env["a1"]
+        try:
+            if m == "call":
+                a1.dispatch.ev(7)
+            else:
+                coll = a1.dispatch.ev.for_modify(a1.dispatch)
+                {"exec_once": coll.exec_once, "exec_once_ue": coll.exec_once_unless_exception,
+                 "sync_first": coll._exec_w_sync_on_first_run}[m](7)
+        except OvError:
+            return "raised"
+        return "done"
+
+
+def ov_observed(kind, regs, methods, keep):
+    """-> (observation dict, inconclusive-or-None)"""
+    from sqlalchemy.event import attr as sa_attr
+    real = OvReal(regs, keep)
+    try:
+        if kind == "nested":
+            outcomes = [real.dispatch(m) for m in methods]
+            return dict(log=real.log, outcomes=outcomes), None
+        sync = threading.Condition()
+        state = {}
+        finished = []
+        orig = sa_attr.threading
+        sa_attr.threading = _ThreadingShim(lambda: _TracedLock(sync, state))
+        try:
+            def body(m):
+                name = threading.current_thread().name
+                try:
+                    res = real.dispatch(m)
+                except BaseException as e:  # noqa: BLE001 — reported, the thread must end
+                    res = "exc:" + type(e).__name__
+                finished.append([name, res])
+                with sync:
+                    state[name] = "done"
+                    sync.notify_all()
+            t1 = threading.Thread(target=body, args=(methods[0],), name="t1", daemon=True)
+            t2 = threading.Thread(target=body, args=(methods[1],), name="t2", daemon=True)
+            t1.start()
+            if not real.inside.wait(OV_BOUND):
+                real.release.set()
+                t1.join(OV_BOUND)
+                return None, "the first dispatch never reached the blocking listener"
+            t2.start()
+            with sync:
+                ok = sync.wait_for(lambda: state.get("t2") in ("done", "blocked-on-mutex"), OV_BOUND)
+            real.release.set()
+            t1.join(OV_BOUND)
+            t2.join(OV_BOUND)
+            if not ok or t1.is_alive() or t2.is_alive():
+                return None, "a dispatching thread neither finished nor blocked on the exec-once mutex within the bound"
+        finally:
+            real.release.set()
+            sa_attr.threading = orig
+        finished.append(["main", real.dispatch("call")])
+        return dict(log=real.log, outcomes=finished), None
+    finally:
+        Real.cleanup(real)
+
+
+_OV_CACHE = {}
+
+
+def ov_scenarios(tier):
+    """(kind, regs, methods) enumerated once each"""
+    if tier not in _OV_CACHE:
+        _OV_CACHE[tier] = _ov_scenarios(tier)       # computed in the parent before the fork: the workers inherit it
+    return _OV_CACHE[tier]
+
+
+def _ov_scenarios(tier):
+    names = ["f", "g", "h"]
+    out = []
+    pairs = [(a, b) for a in OV_METHODS for b in OV_METHODS]
+
+    def reglists(n, behs):
+        opts = [(t, fl, b) for t in OV_TARGETS for fl in OV_FLAGS for b in behs]
+
+        def rec(prefix):
+            if prefix:
+                yield prefix
+            if len(prefix) < n:
+                for o in opts:
+                    yield from rec(prefix + [o])
+        yield from rec([])
+    nmax = 2 if tier == "quick" else 3
+    for rl in reglists(nmax, ["plain", "nest", "raise"]):
+        regs = [[names[i], t, fl, b] for i, (t, fl, b) in enumerate(rl)]
+        for mp in pairs:
+            out.append(("nested", regs, list(mp)))
+    for rl in reglists(nmax, ["plain", "block"]):
+        if sum(1 for o in rl if o[2] == "block") != 1:
+            continue
+        regs = [[names[i], t, fl, b] for i, (t, fl, b) in enumerate(rl)]
+        for mp in pairs:
+            out.append(("concurrent", regs, list(mp)))
+    return out
+
+
+def ov_run_one(kind, regs, methods, keep):
+    exp, skips = ov_expected(kind, regs, methods)
+    got, inconclusive = ov_observed(kind, regs, methods, keep)
+    if inconclusive:
+        got, inconclusive = ov_observed(kind, regs, methods, keep)
+    if inconclusive:
+        return dict(inconclusive=inconclusive), skips
+    if kind == "concurrent":
+        # the order in which the two threads END is not part of the contract; the order of listener invocations is
+        exp = dict(exp, outcomes=sorted(exp["outcomes"]))
+        got = dict(got, outcomes=sorted(got["outcomes"]))
+    if got != exp:
+        n_exp = {}
+        for who, f in exp["log"]:
+            n_exp[f] = n_exp.get(f, 0) + 1
+        n_got = {}
+        for who, f in got["log"]:
+            n_got[f] = n_got.get(f, 0) + 1
+        once_names = [r[0] for r in regs if r[2] != "plain"]
+        what = ("once-listener-ran-more-often-than-allowed" if any(n_got.get(f, 0) > n_exp.get(f, 0) for f in once_names)
+                else "invocation-count" if n_got != n_exp else "order-or-outcome")
+        return dict(failure=dict(kind=kind, regs=regs, methods=methods, expected=exp, got=got, what=what)), skips
+    return {}, skips
+
+
+def _ov_work(task):
+    tier, lo, hi = task
+    keep = []
+    res = dict(n=0, nontrivial=0, skips=0, by_kind={}, fails=[], inconclusive=[], nfail=0)
+    smallest = {}
+    sc = ov_scenarios(tier)
+    for kind, regs, methods in sc[lo:hi]:
+        r, skips = ov_run_one(kind, regs, methods, keep)
+        res["n"] += 1
+        res["by_kind"][kind] = res["by_kind"].get(kind, 0) + 1
+        if skips:
+            res["nontrivial"] += 1
+            res["skips"] += skips
+        if r.get("failure"):
+            res["nfail"] += 1
+            f = r["failure"]
+            cls = (f["kind"], f["what"])
+            size = (len(f["regs"]), sum(1 for x in f["regs"] if x[3] != "plain"), sum(1 for x in f["regs"] if x[2] != "plain"))
+            if cls not in smallest or size < smallest[cls][0]:      # per class the smallest failing scenario of this chunk
+                smallest[cls] = (size, f)
+        if r.get("inconclusive"):
+            res["inconclusive"].append(dict(kind=kind, regs=regs, methods=methods, why=r["inconclusive"]))
+        if len(keep) > 400:
+            keep.clear()
+            gc.collect()
+    keep.clear()
+    res["fails"] = [f for _, f in smallest.values()]
+    return res
+
+
+def overlapping(run, tier):
+    t0 = time.time()
+    n = len(ov_scenarios(tier))
+    nchunks = 32
+    step = (n + nchunks - 1) // nchunks
+    tasks = [(tier, lo, min(n, lo + step)) for lo in range(0, n, step)]
+    ctx = multiprocessing.get_context("fork")
+    with ctx.Pool(min(16, multiprocessing.cpu_count()), maxtasksperchild=4) as pool:
+        results = pool.map(_ov_work, tasks, chunksize=1)
+    tot = sum(r["n"] for r in results)
+    nt = sum(r["nontrivial"] for r in results)
+    nfail = sum(r["nfail"] for r in results)
+    by_kind = {}
+    for r in results:
+        for k, v in r["by_kind"].items():
+            by_kind[k] = by_kind.get(k, 0) + v
+    fails = sorted((f for r in results for f in r["fails"]), key=lambda f: (len(f["regs"]), sum(1 for x in f["regs"] if x[3] != "plain"), sum(1 for x in f["regs"] if x[2] != "plain"),
+                                  json.dumps(f, sort_keys=True)))
+    seen = set()
+    known_hits = 0
+    for f in fails:
+        dj = json.dumps(f, sort_keys=True, default=repr)
+        k = run.match_known(function=OV_FUNCTION, input=dj)
+        if k is not None:
+            run.known_finding(k, "overlapping dispatch on the real event system")
+            known_hits += 1
+            continue
+        cls = (f["kind"], f["what"])
+        if cls in seen or len(seen) >= 8:
+            continue
+        seen.add(cls)
+        run.violation("C28b-overlap-%s-%s-%08d" % (f["kind"], f["what"][:30], zlib.crc32(dj.encode()) % 10 ** 8),
+                      dict(function=OV_FUNCTION, bounded_module="checks.C28_bounded", input=f, expected=f["expected"], actual=f["got"],
+                           reason="listener invocations of overlapping dispatches differ from the contract (C28_bounded, OVERLAPPING DISPATCH)"))
+    for inc in [i for r in results for i in r["inconclusive"]][:5]:
+        run.undecided.append("C28 bounded (overlapping dispatch): no verdict, bounded wait expired twice: " + json.dumps(inc, sort_keys=True))
+    keep = []
+    samples = []
+    for kind, regs, methods in (("nested", [["f", "A", "once", "nest"], ["g", "a1", "plain", "plain"]], ["call", "call"]),
+                                ("concurrent", [["f", "A", "once_ue", "block"], ["g", "A", "plain", "plain"]], ["exec_once_ue", "exec_once_ue"]),
+                                ("concurrent", [["f", "a1", "once", "block"], ["g", "a1", "once", "plain"]], ["call", "call"])):
+        exp, _ = ov_expected(kind, regs, methods)
+        got, inc = ov_observed(kind, regs, methods, keep)
+        samples.append(dict(kind=kind, regs=regs, methods=methods, observed=got, agrees_with_contract=(inc is None and got is not None and got["log"] == exp["log"])))
+    if tot == 0 or nt < 2:
+        run.crashes.append("C28 bounded: vacuous enumeration (overlapping dispatch)")
+    blk = dict(
+        function="util.only_once (event.listen once=True / _once_unless_exception=True) / _CompoundListener.__call__ / exec_once / "
+                 "exec_once_unless_exception / _exec_w_sync_on_first_run / _exec_once_impl mutex",
+        scope="OVERLAPPING DISPATCH on one instance a1 of class A: every list of <= %d listeners, each registered on {class A, instance a1} as "
+              "{plain, once=True, _once_unless_exception=True}; (nested, one thread) each listener behaving as {plain, re-dispatches the event "
+              "from inside its first invocation, raises in its first invocation}%s, followed by two dispatches by every pair of methods "
+              "%s; (concurrent, two real threads, forced schedule) exactly one listener parks inside its first invocation while a second "
+              "thread dispatches (again every pair of methods; the second thread runs to its end or is observed waiting for the collection's "
+              "exec-once mutex before the first is released), then a later plain dispatch"
+              % (2 if tier == "quick" else 3, "", OV_METHODS),
+        evaluations=tot, distinct_nontrivial=nt, by_kind=by_kind,
+        rule="(kind, listener list, method pair) enumerated once each; non-trivial when the ghost skipped at least one once-type listener in a "
+             "dispatch that ran while another dispatch was in progress (re-entrant, or the second thread while the first is parked)",
+        samples=samples, exhaustive=True, label=LABEL, contract_failures=nfail, known_finding_cases=known_hits, wall_s=round(time.time() - t0, 1))
+    run.coverage.setdefault("bounded", []).append(blk)
+    return blk
+
+
+def ov_replay(inp):
+    keep = []
+    r, _ = ov_run_one(inp["kind"], inp["regs"], inp["methods"], keep)
+    if r.get("inconclusive"):
+        print(f"REPLAY-INCONCLUSIVE {OV_FUNCTION} {r['inconclusive']}")
+        return 2
+    if r.get("failure"):
+        f = r["failure"]
+        print(f"REPLAY-FAILS {OV_FUNCTION} kind={f['kind']} regs={f['regs']} methods={f['methods']} what={f['what']} expected={f['expected']} got={f['got']}")
+        return 1
+    print(f"REPLAY-PASSES {OV_FUNCTION} kind={inp['kind']} regs={inp['regs']} methods={inp['methods']}")
+    return 0
 
 
 def replay(data):
     inp = data["input"]
+    if "regs" in inp:
+        return ov_replay(inp)
     keep = []
     s, f, trace = run_history(inp["ops"], keep)
     if f is not None:
